@@ -10,7 +10,7 @@
    has not begun, dropped = values refused because the cancel flag was seen (source.c:205). *)
 From Coq Require Import ZArith Bool List.
 From Verif Require Import Word Conc Gen_consts Gen_fields Gen_dqstate Gen_srcdata DqFields SrcData SrcData_proofs.
-From Verif Require SrcLane SrcLane_proofs SrcLaneR SrcLaneR_proofs.
+From Verif Require SrcLane SrcLane_proofs SrcLane_measure SrcLaneR SrcLaneR_proofs.
 Import ListNotations.
 Local Open Scope Z_scope.
 
@@ -190,6 +190,44 @@ Proof. exact SrcLane_proofs.never_zero. Qed.
 Print Assumptions C15_lane_never_zero.
 
 (* ------------------------------------------------------------------------------------------------------------------
+   termination on (B) (Proofs/SrcLane_measure.v): a potential Phi over the threads L of an execution -- a constant per
+   program point, 14 per time the source sits in its target queue, 5 for NEEDS_ACTIVATION, and a term that depends on where
+   the holder of the enqueued / drain token stands: DIRTY costs 16 while somebody drains (it will make the unlock fail:
+   retry loop for a root target, invoke_finish + re-enqueue otherwise), pending data costs 14 between the latch and the
+   starvation re-test (it will re-enqueue the source), "not suspended" costs 15 at invoke_finish (it will push), a max QoS
+   above the locker's floor costs 1 (try_lock restart).  Every step of a thread inside a call or a drain and every worker
+   pick-up lowers Phi by at least 1; starting a client call raises it by that call's constant (merge_data 53, suspend 1,
+   resume 70, activate 75, cancel 35, a spurious wakeup 34).  So an execution with these calls has at most
+   Phi(start) + sum of the constants other actions: no livelock in the DIRTY retry, the re-enqueue loop, the restart or
+   the activate-then-resume loop; and where nothing is enabled any more everything merged has been delivered. *)
+Theorem C15_every_step_pays : forall L, NoDup L -> forall c s t s',
+  SrcLane_proofs.Inv c s -> In t L -> SrcLane.gstep c s t = Some s' -> SrcLane_measure.Phi L s' + 1 <= SrcLane_measure.Phi L s.
+Proof. exact SrcLane_measure.step_decreases. Qed.
+Print Assumptions C15_every_step_pays.
+Theorem C15_worker_pickup_pays : forall L, NoDup L -> forall c s t f s',
+  SrcLane_proofs.Inv c s -> In t L -> SrcLane.begin s t (SrcLane.CWorker f) = Some s' ->
+  SrcLane_measure.Phi L s' + 1 <= SrcLane_measure.Phi L s.
+Proof. exact SrcLane_measure.begin_worker_decreases. Qed.
+Print Assumptions C15_worker_pickup_pays.
+Theorem C15_client_call_cost : forall L, NoDup L -> forall c s t k s',
+  SrcLane_proofs.Inv c s -> In t L -> (forall f, k <> SrcLane.CWorker f) -> SrcLane.begin s t k = Some s' ->
+  SrcLane_measure.Phi L s' = SrcLane_measure.Phi L s + SrcLane_measure.call_cost k.
+Proof. exact SrcLane_measure.begin_client_raises. Qed.
+Print Assumptions C15_client_call_cost.
+Theorem C15_execution_bound : forall c L rb s acts s',
+  NoDup L -> 0 <= rb < 2 -> SrcLane.reach c rb s -> forallb SrcLane_measure.act_valid acts = true ->
+  (forall a, In a acts -> In (SrcLane_measure.act_tid a) L) -> SrcLane.run c s acts = Some s' ->
+  SrcLane_measure.n_other acts <= SrcLane_measure.Phi L s + SrcLane_measure.budget acts.
+Proof. exact SrcLane_measure.no_livelock. Qed.
+Print Assumptions C15_execution_bound.
+Theorem C15_terminal_all_delivered : forall c rb s,
+  0 <= rb < 2 -> SrcLane.reach c rb s -> SrcLane.quiescent s -> SrcLane.rootq s = 0 -> SrcLane.cancelled s = false ->
+  SrcLane.suspended_word (SrcLane.st s) = false ->
+  SrcLane.pend s = 0 /\ SrcLane.latched s = 0 /\ SrcLane.running s = None.
+Proof. exact SrcLane_measure.terminal_all_delivered. Qed.
+Print Assumptions C15_terminal_all_delivered.
+
+(* ------------------------------------------------------------------------------------------------------------------
    the second tie of (B): every recorded round of the stress harness is replayed as a run of SrcLane.begin / SrcLane.gstep
    (Model/SrcLaneR.v, lib/props/c15_replay.py).  The abstraction of each thread's recording into model actions and the
    proposed global order are untrusted; the scheduler takes an action only if the model state holds the value the
@@ -267,3 +305,18 @@ Example C15_lane_nonvacuous :
               SrcLane.pcs s 8 = SrcLane.Idle /\ SrcLane.pcs s 9 = SrcLane.Idle
   | None => False end.
 Proof. vm_compute. repeat split. eexists. reflexivity. Qed.
+
+(* ... and the potential along that run (threads 7, 8, 9): 0 at rest, +53 at each merge_data, one or more down at every other
+   action, 0 again at the end; 36 other actions against a budget of 2 * 53 *)
+Fixpoint lane_phi_trace (s : SrcLane.gst) (acts : list SrcLane.action) : list Z :=
+  SrcLane_measure.Phi [7; 8; 9] s ::
+  match acts with
+  | [] => []
+  | a :: r => match SrcLane.run lane_cfg s [a] with Some s' => lane_phi_trace s' r | None => [-1] end
+  end.
+Example C15_measure_nonvacuous :
+  lane_phi_trace (SrcLane.init_state 1) lane_demo2 =
+    [0; 53; 52; 36; 35; 34; 15; 14; 12; 11; 10; 9; 8; 7; 6; 5; 58; 57; 55; 54; 53; 35; 34; 33; 16; 15; 14; 12; 11; 10; 9; 8; 7;
+     6; 5; 4; 3; 2; 0] /\
+  SrcLane_measure.n_other lane_demo2 = 36 /\ SrcLane_measure.budget lane_demo2 = 106.
+Proof. vm_compute. repeat split. Qed.
